@@ -250,15 +250,18 @@ LitParseVerdict(text, sp, red, p1, p2) ==
   ELSE ""
 
 (* an identity parser: parse(text) -> p, parse(format(p)) -> p2 *)
+(* (p2.k = "skip": the parser's input form cannot be produced from an       *)
+(* Identity - an absolute URL from an identity without a base - so only the *)
+(* first parse is judged)                                                   *)
 IdParseVerdict(p, p2, mustAccept, want) ==
   IF Crashed(p) THEN p.k
   ELSE IF Crashed(p2) THEN "reparse-" \o p2.k
   ELSE IF mustAccept THEN
      (IF p.k # "ok" THEN "rejected-valid"
       ELSE IF ~IdEq(p, want.type, want.rid, want.ver) THEN "wrong-components"
-      ELSE IF ~SameId(p2, p) THEN "reparse-differs"
+      ELSE IF p2.k # "skip" /\ ~SameId(p2, p) THEN "reparse-differs"
       ELSE "")
-  ELSE IF p.k = "ok" THEN (IF SameId(p2, p) THEN "" ELSE "accepted-inconsistent")
+  ELSE IF p.k = "ok" THEN (IF p2.k = "skip" \/ SameId(p2, p) THEN "" ELSE "accepted-inconsistent")
   ELSE ""
 
 CanEq(p, u, v, f) == p.k = "ok" /\ p.url = u /\ p.ver = v /\ p.frag = f
@@ -288,12 +291,20 @@ ReadBackVerdict(p, text) ==
   ELSE IF p.k = "ok" THEN "different-string"
   ELSE "no-string-" \o p.k
 
-CaseClass(cs) ==
-  CASE cs.kind = "rest"  -> "rest:" \o cs.ridc \o "," \o cs.verc \o "," \o cs.basec
+(* The class of a case in a signature.  Resource types are abstracted to "T" *)
+(* except the types named in OutsideFhirRestRegex: the REST URL regular      *)
+(* expression published in the FHIR specification (references.html#literal)  *)
+(* omits them, implementations that copy it treat them differently, and a    *)
+(* finding about them must not be confused with a finding about every type.  *)
+OutsideFhirRestRegex == {"Parameters"}
+TypeClass(t) == IF t \in OutsideFhirRestRegex THEN t ELSE "T"
+CaseClass(cs, d) ==
+  CASE cs.kind = "rest"  -> "rest:" \o TypeClass(cs.type) \o ":" \o cs.ridc \o "," \o cs.verc \o "," \o cs.basec
     [] cs.kind = "frag"  -> "frag:" \o cs.ridc
     [] cs.kind = "urn"   -> "urn:" \o cs.ridc
-    [] cs.kind = "canon" -> "canon:" \o cs.basec \o "," \o cs.verc \o "," \o cs.ridc
-    [] cs.kind = "raw"   -> "raw:" \o cs.x
+    [] cs.kind = "canon" -> "canon:" \o (IF cs.type = "" THEN "" ELSE TypeClass(cs.type) \o ":") \o cs.basec \o "," \o cs.verc \o "," \o cs.ridc
+    [] cs.kind = "raw"   -> "raw:" \o cs.x \o (IF d.want.k = "ok" /\ d.want.c.form = "rest" THEN ":" \o TypeClass(d.want.c.type) ELSE "")
+    [] cs.kind = "pool"  -> "pool:" \o TypeClass(cs.type) \o "," \o TypeClass(cs.x)
     [] OTHER -> cs.kind
 
 Chk(name, problem) == [name |-> name, problem |-> problem]
@@ -501,5 +512,5 @@ CaseId(cs) ==
 CaseJson(cs, d) ==
   [id |-> CaseId(cs), kind |-> cs.kind, type |-> cs.type, rid |-> cs.rid, ver |-> cs.ver, base |-> cs.base,
    ridc |-> cs.ridc, verc |-> cs.verc, basec |-> cs.basec, x |-> cs.x,
-   text |-> d.text, rel |-> d.rel, valid |-> d.valid, refs |-> d.refs, den |-> d]
+   den |-> d]
 =============================================================================
